@@ -173,7 +173,41 @@ def regenerate(ctx=None):
         defs += ["/-- `trust_region.ball_step(x0, g, Delta)` over the numeric record of Kernels/TrsboxLinear.lean -/",
                  "def ballStepSrc {α : Type} [OfNat α 0] [Add α] [Sub α] [Mul α] [Div α] [Neg α] [LT α] [LE α] [DecidableLT α] [DecidableLE α]",
                  "    (N : Num α) (n : Nat) (x0 g : Nat → α) (Delta : α) : α :="] + bs + [""]
-        info = {"term": result, "calls": len(sites), "returns": len(rets), "ball_step_lines": len(bs)}
+        # the formulas the norm lemmas of Proofs/TrsNorm.lean are about, as canonical text: in trsbox the assignments to `resid`,
+        # to `temp` directly after it, to `blen` and `stplen`; in alt_trust_step the LAST assignments to `cth`, `sth` and the
+        # update of the free part of `d`
+        tree = ast.parse(open(os.path.join(core.REPO, "dfols", "trust_region.py")).read())
+        fns = {n.name: n for n in tree.body if isinstance(n, ast.FunctionDef)}
+        forms = []
+        def assigns(fn, name):
+            return sorted([(n.lineno, ast.unparse(n)) for n in ast.walk(fn) if isinstance(n, ast.Assign) and len(n.targets) == 1
+                           and ast.unparse(n.targets[0]) == name])
+        tb = fns["trsbox"]
+        res = assigns(tb, "resid")
+        for ln, t in res:
+            forms.append(("trsbox", t))
+            nxt = [x for x in assigns(tb, "temp") if x[0] > ln]
+            if nxt:
+                forms.append(("trsbox", nxt[0][1]))
+        guards = {}
+        for n in ast.walk(tb):
+            if isinstance(n, ast.If):
+                for b in n.body:
+                    if isinstance(b, ast.Assign):
+                        guards[b.lineno] = ast.unparse(n.test)
+        for nm in ("blen", "stplen"):
+            for ln, t in assigns(tb, nm):
+                forms.append(("trsbox", t + (("  # under: if " + guards[ln]) if nm == "stplen" and ln in guards else "")))
+        at = fns["alt_trust_step"]
+        for nm in ("cth", "sth"):
+            a = assigns(at, nm)
+            if a:
+                forms.append(("alt_trust_step", a[-1][1]))
+        for _ln, t in assigns(at, "d[xbdi == 0]"):
+            forms.append(("alt_trust_step", t))
+        defs += ["/-- (function, assignment) — the step-length and rotation formulas of trsbox / alt_trust_step -/",
+                 "def trsboxStepFormulas : List (String × String) := [\n%s]" % ",\n".join("  (%s, %s)" % (q(a), q(b)) for a, b in forms), ""]
+        info = {"term": result, "calls": len(sites), "returns": len(rets), "ball_step_lines": len(bs), "step_formulas": len(forms)}
     except Exception as exc:
         if ctx is not None:
             ctx.broke("gen:trsclip-translator", repr(exc))
